@@ -4,7 +4,6 @@ from __future__ import annotations
 from bqskit.compiler.basepass import BasePass
 from bqskit.compiler.passdata import PassData
 from bqskit.ir.circuit import Circuit
-from bqskit.ir.gates import PermutationGate
 from bqskit.ir.gates import TaggedGate
 from bqskit.ir.gates.constant.unitary import ConstantUnitaryGate
 from bqskit.passes.alias import PassAlias
@@ -12,6 +11,7 @@ from bqskit.passes.control.foreach import ForEachBlockPass
 from bqskit.passes.mapping.pam import PAMBlockResultDict
 from bqskit.passes.mapping.routing.pam import PAMRoutingPass
 from bqskit.passes.partitioning import QuickPartitioner
+from bqskit.qis.permutation import PermutationMatrix
 from bqskit.passes.util.unfold import UnfoldPass
 from bqskit.utils.typing import Sequence
 from bqskit.utils.typing import is_integer
@@ -46,6 +46,17 @@ class CalculatePAMErrorsPass(BasePass):
     def get_opp_perm(in_perm: Sequence[int]) -> Sequence[int]:
         return tuple(in_perm.index(i) for i in range(len(in_perm)))
 
+    @staticmethod
+    def get_perm_gate(
+        num_qudits: int,
+        radix: int,
+        perm: Sequence[int],
+    ) -> ConstantUnitaryGate:
+        """Return the gate permuting `num_qudits` qudits of base `radix`."""
+        return ConstantUnitaryGate(
+            PermutationMatrix.from_qudit_location(num_qudits, radix, perm),
+        )
+
     async def run(self, circuit: Circuit, data: PassData) -> None:
         """Perform the pass's operation, see :class:`BasePass` for more."""
         # calculate approximate (current) panel unitary
@@ -59,17 +70,18 @@ class CalculatePAMErrorsPass(BasePass):
                 pf = op.gate.tag['post_perm']
                 in_utry = op.gate.tag['original_utry']
                 n = in_utry.num_qudits
+                radix = in_utry.radixes[0]
                 exact_circuit.append_gate(
-                    PermutationGate(
-                        n, CalculatePAMErrorsPass.get_opp_perm(pi),
+                    CalculatePAMErrorsPass.get_perm_gate(
+                        n, radix, CalculatePAMErrorsPass.get_opp_perm(pi),
                     ), op.location,
                 )
                 exact_circuit.append_gate(
                     ConstantUnitaryGate(in_utry), op.location,
                 )
                 exact_circuit.append_gate(
-                    PermutationGate(
-                        n, CalculatePAMErrorsPass.get_opp_perm(pf),
+                    CalculatePAMErrorsPass.get_perm_gate(
+                        n, radix, CalculatePAMErrorsPass.get_opp_perm(pf),
                     ), op.location,
                 )
 
